@@ -4,6 +4,7 @@ import (
 	"fmt"
 	"go/token"
 	"go/types"
+	"strings"
 
 	"golang.org/x/tools/go/ssa"
 )
@@ -756,6 +757,60 @@ func ruleInitShape(c *Ctx, r *Reporter) {
 			}
 			key := fmt.Sprintf("%s|copy of the record keeps its channel (%s)", c.fnName(fn), a.Comment)
 			r.check(whole, key, c.posStr(a.Pos()), "the private record is a struct copy of *table.init (same watch channel)", "a new initialization record is built without copying the existing one: its watch channel differs from the one handed to earlier waiters")
+		}
+	}
+	// the mark-done closure has no state of its own: whatever it does happens to the transaction's
+	// private table entry, so a mark made in a transaction that is aborted leaves nothing behind
+	{
+		bad := ""
+		var badPos ssa.Instruction
+		n := 0
+		for _, fn := range withAnon(reg) {
+			if fn == reg {
+				continue
+			}
+			n++
+			for _, ia := range allInstrs(fn) {
+				switch x := ia.In.(type) {
+				case *ssa.Store:
+					root := x.Addr
+					for {
+						if fa, ok := root.(*ssa.FieldAddr); ok {
+							root = fa.X
+							continue
+						}
+						if ix, ok := root.(*ssa.IndexAddr); ok {
+							root = ix.X
+							continue
+						}
+						break
+					}
+					if _, ok := root.(*ssa.FreeVar); ok && bad == "" {
+						bad, badPos = "assigns a variable captured from RegisterInitializer", x
+					}
+				case ssa.CallInstruction:
+					if cn := c.calleeName(x); strings.HasPrefix(cn, "sync.") || strings.HasPrefix(cn, "sync/atomic.") {
+						for _, arg := range x.Common().Args {
+							v := arg
+							if fa, ok := v.(*ssa.FieldAddr); ok {
+								v = fa.X
+							}
+							if _, ok := v.(*ssa.FreeVar); ok && bad == "" {
+								bad, badPos = "uses "+cn+" on a variable captured from RegisterInitializer", x
+							}
+						}
+					}
+				}
+			}
+		}
+		key := "statedb.(genTable).RegisterInitializer|mark-done keeps no state outside the transaction"
+		switch {
+		case n == 0:
+			r.undecidedP([]string{"C19"}, key, c.posStr(reg.Pos()), "no mark-done closure found")
+		case bad == "":
+			r.okP([]string{"C19"}, key, c.posStr(reg.Pos()), "the returned closure only reads its captured variables; its effect is confined to the transaction's table entry")
+		default:
+			r.badP([]string{"C19"}, key, c.posStr(instrPos(badPos)), "the mark-done closure "+bad+": that state survives Abort, so a mark made in an aborted transaction is remembered and a later mark in a committed transaction does nothing - the table never becomes initialized")
 		}
 	}
 	// Commit: init cleared only when pending is empty, and that record's channel is queued
